@@ -204,4 +204,32 @@ def handleInbound (f : Filter) (pb : PermitBan) (now : Nat) (permitted : Bool) (
       let (f2, pb2, ok2) := if permitted then (f1, pb1, true) else f1.finalPass pb1 now ip node
       if ok2 then (f2, pb2, .inbound) else (f2, pb2, .dropped)
 
+/-! ### The receive handler's view: exemptions are kept per socket address -/
+
+/-- `RecvHandler`: the filter, the global permit/ban list and `expected_responses`
+(socket address = (ip, port) → number of awaited datagrams; the handler maintains the counts, the
+receive path only asks whether the exact source address is present). -/
+structure Recv where
+  filter : Filter
+  pb : PermitBan
+  expected : List (Ip × Nat) := []
+
+/-- The handler registers / releases an address (`lrx` / `lry` of the driver). -/
+def expectAddr (l : List (Ip × Nat)) (ip : Ip) (port : Nat) : List (Ip × Nat) :=
+  (ip, port) :: l.filter (· != (ip, port))
+def releaseAddr (l : List (Ip × Nat)) (ip : Ip) (port : Nat) : List (Ip × Nat) :=
+  l.filter (· != (ip, port))
+def Recv.expect (r : Recv) (ip : Ip) (port : Nat) : Recv :=
+  { r with expected := expectAddr r.expected ip port }
+def Recv.release (r : Recv) (ip : Ip) (port : Nat) : Recv :=
+  { r with expected := releaseAddr r.expected ip port }
+
+/-- `expected_responses.get(&src_address).is_some()`. -/
+def Recv.permitted (r : Recv) (ip : Ip) (port : Nat) : Bool := r.expected.contains (ip, port)
+
+/-- `handle_inbound` for a datagram from `(ip, port)`. -/
+def Recv.inbound (r : Recv) (now : Nat) (ip : Ip) (port : Nat) (d : Decoded) : Recv × Outcome :=
+  let res := handleInbound r.filter r.pb now (r.permitted ip port) ip d
+  ({ r with filter := res.1, pb := res.2.1 }, res.2.2)
+
 end Discv5.Filter
